@@ -287,7 +287,18 @@ func runC12(r *ev.Run) {
 				}
 				m.remove(id)
 				r.Count("ops:remove", 1)
-				if rng.IntN(3) == 0 {
+				if id == g.EntryPoint && rng.IntN(2) == 0 {
+					// the removed entry point comes straight back under the same id (an update of the oldest document),
+					// before any Flush
+					v := vg.fresh()
+					hist = append(hist, histOp{Op: "re-add(entry-point)", ID: id})
+					if err := idx.Add(*comet.NewVectorNodeWithID(id, cloneF32(v))); err != nil {
+						rep("hnsw.add-error", "re-adding the removed entry point: "+err.Error())
+						return
+					}
+					m.add(id, v)
+					r.Count("ops:re-add-removed-entry-point", 1)
+				} else if rng.IntN(3) == 0 {
 					// a REFUSED Remove (the id just removed, or one never added) changes nothing - in particular it leaves
 					// no tombstone behind that a later Flush would count
 					rid := id
